@@ -19,11 +19,15 @@ type Run struct {
 	M    *core.Model
 	E    *core.Effects
 	Tier string
+	// per-run memo tables (a Run is used by one goroutine)
+	lfMemo map[string]*LockFacts
+	cfMemo map[string]*CoreFlow
+	mpMemo map[string]*MethodPaths
 }
 
 func NewRun(p *core.Prog, tier string) *Run {
 	m := core.BuildModel(p)
-	return &Run{P: p, M: m, E: core.ComputeEffects(m), Tier: tier}
+	return &Run{P: p, M: m, E: core.ComputeEffects(m), Tier: tier, lfMemo: map[string]*LockFacts{}, cfMemo: map[string]*CoreFlow{}, mpMemo: map[string]*MethodPaths{}}
 }
 
 // PropertyFunc evaluates all rules of one property on one loaded program.
@@ -222,3 +226,30 @@ func contains(s []string, x string) bool {
 
 // ExtraArchs lists, per property, build configurations analysed in addition to the host one already in the quick tier.
 var ExtraArchs = map[string][]string{"C14": {"386"}}
+
+// borrow copies the non-trivial obligations of another property's rule families into rep under a new
+// rule name: a property whose statement rests on premises decided elsewhere restates them, so that its own
+// check reports when a premise breaks.
+func borrow(rep *core.Report, from *core.Report, newRule string, rulePrefixes ...string) int {
+	n := 0
+	for _, o := range from.Obs {
+		if o.Trivial {
+			continue
+		}
+		ok := len(rulePrefixes) == 0
+		for _, p := range rulePrefixes {
+			if strings.HasPrefix(o.Rule, p) {
+				ok = true
+			}
+		}
+		if !ok {
+			continue
+		}
+		c := *o
+		c.Construct = "[" + o.Rule + "] " + o.Construct
+		c.Rule = newRule
+		rep.Obs = append(rep.Obs, &c)
+		n++
+	}
+	return n
+}
